@@ -657,9 +657,16 @@ func c19(r *core.Run) {
 				continue
 			}
 			isDur := false
-			for _, dv := range cbVals {
-				if c.Common().Args[0] == dv {
-					isDur = true
+			for _, av := range paramArgs(p, c.Common().Args[0], 0) { // the loop may sit in a helper handed the duration
+				for _, dv := range cbVals {
+					if av == dv || core.Strip(av) == core.Strip(dv) {
+						isDur = true
+					}
+					for _, dv2 := range paramArgs(p, dv, 0) {
+						if core.Strip(av) == core.Strip(dv2) {
+							isDur = true
+						}
+					}
 				}
 			}
 			if !isDur {
